@@ -966,12 +966,13 @@ func phaseConflist(run *evid.Run, env *runEnv) {
 			}
 		}
 		if lastStatus != 200 && !anyPluginDelFailed {
-			run.Count("viol_repeated-del-never-succeeds-after-add-of-conflist-network", 1)
-			run.Violate(evid.Violation{Sig: "repeated-del-never-succeeds-after-add-of-conflist-network",
-				Msg: fmt.Sprintf("pod selects %v where list-net is defined by a .conflist file: ADD status %d; three consecutive DELs "+
-					"all fail although no plugin DEL ever failed (state file keeps the un-runnable entry)", sel, st),
-				Witness: map[string]interface{}{"daemon_config": cfg, "pod": pod, "container_id": cid, "steps": steps},
-				Case:    fmt.Sprintf("%d:conflist:%d", run.Seed, variant)})
+			// Observation, not a violation: C12 says a DEL retries exactly the delegates whose DEL failed before;
+			// it does not promise that a delegate whose DEL keeps failing (here: a .conflist network that has no
+			// top-level type and therefore can never be delegated) eventually succeeds.
+			run.Count("obs_repeated_del_never_succeeds_after_add_of_conflist_network", 1)
+			run.Set("observation_conflist_network", fmt.Sprintf("pod selects %v where list-net is defined by a .conflist file: ADD "+
+				"status %d; three consecutive DELs all fail although no plugin was ever invoked for it (state file keeps the "+
+				"un-runnable entry)", sel, st))
 		}
 		run.Nontrivial(fmt.Sprintf("conflist|sel=%d", len(sel)))
 		env.removeState(cid)
